@@ -217,6 +217,8 @@ def check_scenario(case, acc, compare_printed=False):
         allowed = want | {("app", pb, lab) for pb, lab, _pc in opt[key]}
         missing = want - got
         extra = got - allowed
+        info["opt_expected"] = info.get("opt_expected", 0) + len(allowed - want)
+        info["opt_observed"] = info.get("opt_observed", 0) + len((allowed - want) & got)
         if missing:
             problems.append(("first-shipping-build-missing",
                              f"component build {key} is shipped first by parent build(s) {sorted(want)} but included_at "
@@ -356,6 +358,10 @@ def _run_A(shard, tier, acc):
                         feats, nontriv = _features_A(case, info)
                         if info.get("dups"):
                             acc.note_sum("A_duplicate_included_at_entries", info["dups"])
+                        if info.get("opt_expected"):
+                            acc.feat("A:cross-branch-containment(accepted either way)")
+                            acc.note_sum("A_cross_branch_entries_possible", info["opt_expected"])
+                            acc.note_sum("A_cross_branch_entries_recorded", info.get("opt_observed", 0))
                         nship = sum(len(v) for v in info.get("req", {}).values())
                         acc.case(nontrivial=nontriv, features=tuple(feats),
                                  outcome=f"A builds={len(info.get('req', {}))} ships={nship}" + (" VIOLATION" if problems else ""))
